@@ -28,3 +28,20 @@ Section C05.
   Qed.
 End C05.
 Print Assumptions C05_parse_only_if.
+
+From RSP Require Import Proxy Slots_proofs Dup_proofs Reply_proofs Forward_proofs.
+Local Open Scope N_scope.
+
+(* through the handler: whatever radsrv places in a server table was parsed from an authentic packet
+   (C05_parse_only_if applies to it), is an Access-Request or Accounting-Request, passed the
+   RequireMessageAuthenticator(/Proxy) test and the EAP format test -- for every state, configuration and oracle *)
+Theorem C05_forward_only_if : forall md5 rx cfg fs st h c now rnd s i b,
+  In (OEnq s i b) (snd (radsrv md5 rx cfg fs st h c now rnd)) ->
+  exists r0 msg, get_rq st h = Some r0 /\
+    buf2radmsg md5 (match rq_buf r0 with Some x => x | None => [] end) (cc_secret (clconf_of cfg c)) None = Some msg /\
+    m_mainvalid msg = false /\
+    ((m_code msg =? Consts.RAD_Access_Request) || (m_code msg =? Consts.RAD_Accounting_Request) = true) /\
+    ma_policy_rejects (clconf_of cfg c) msg = false /\
+    (o_verifyeap (cf_opt cfg) && (m_code msg =? Consts.RAD_Access_Request) && negb (verifyeapformat (m_attrs msg)) = false).
+Proof. exact forward_only_if_acceptable. Qed.
+Print Assumptions C05_forward_only_if.
